@@ -85,36 +85,52 @@ theorem prep_pop_varlen (s : PrepSt) (f : PrepFrame) (st : List PrepFrame) (hk :
   rw [varintAdjust_eq _ _ _ _ _ h1 h2 h3]
   simp only [prepStep, hs, hk, adjustLength, and_self]
 
-/-- `varintLengthField.check` is the model decoder's pop condition for a varint length frame -/
-theorem varintCheck_eq (cur start len fieldSize eInvalid nilErr : Int) (h1 : InI64 (cur - start))
+/-- `varintLengthField.check` (measures the varint as it was read, `fieldSize` > 0 bytes) is the model decoder's
+    pop condition for a varint length frame: the bytes after the field up to the current offset are `len` many -/
+theorem varintCheck_eq (cur start len fieldSize eInvalid nilErr : Int) (hf : 0 < fieldSize) (h1 : InI64 (cur - start))
     (h2 : InI64 (cur - start - fieldSize)) :
     Gen.C09.varintCheck cur start len fieldSize eInvalid nilErr =
-      (if cur - start - fieldSize = len then nilErr else eInvalid) := by
+      (if cur - (start + fieldSize) = len then nilErr else eInvalid) := by
   unfold Gen.C09.varintCheck
-  simp only [sub64, wrap64_id h1, wrap64_id h2]
+  simp only [sub64, wrap64_id h1, wrap64_id h2, show ¬ fieldSize ≤ 0 by omega, false_or]
+  have e : cur - (start + fieldSize) = cur - start - fieldSize := by omega
+  rw [e]
   by_cases h : cur - start - fieldSize = len <;> simp [h]
 
 /-! ### decoder guards -/
 
-/-- `getCompactArrayLength` after the uvarint: 0 (null) and 1 (empty) both give 0, else n − 1 -/
-theorem compactArrayLength_eq (n : Nat) (nilErr : Int) (h : InI64 n) :
-    Gen.C09.compactArrayLength n nilErr nilErr = (((n - 1 : Nat) : Int), nilErr) := by
+/-- `getCompactArrayLength` after the uvarint: 0 (null) gives 0; otherwise n − 1, which must not exceed the
+    remaining bytes – the model's `getCompactArrayLength` -/
+theorem compactArrayLength_eq (bs : Bytes) (n : Nat) (rest : Bytes) (nilErr off rawLen eIns : Int) (h : InI64 n)
+    (hg : getUVarint bs = some (n, rest)) :
+    Gen.C09.compactArrayLength n nilErr nilErr rest.length off rawLen eIns =
+      (match getCompactArrayLength bs with
+       | some (m, _) => ((m : Int), nilErr, off)
+       | none => (0, eIns, rawLen)) := by
   unfold InI64 at h
-  unfold Gen.C09.compactArrayLength
-  simp only [ne_eq, not_true_eq_false, ↓reduceIte, sub64]
+  unfold Gen.C09.compactArrayLength getCompactArrayLength
+  simp only [hg, ne_eq, not_true_eq_false, ↓reduceIte, sub64]
   by_cases h0 : (n : Int) = 0
-  · simp only [h0, ↓reduceIte]; congr 1; omega
-  · simp only [h0, ↓reduceIte]
-    rw [wrap64_id (by unfold InI64; omega)]; congr 1; omega
+  · have hn : n = 0 := by omega
+    subst hn
+    simp
+  · have e : wrap64 ((n : Int) - 1) = ((n - 1 : Nat) : Int) := by
+      rw [wrap64_id (by unfold InI64; omega)]; omega
+    simp only [h0, ↓reduceIte, e]
+    by_cases h1 : n - 1 > rest.length
+    · have : ((n - 1 : Nat) : Int) > (rest.length : Int) := by omega
+      simp only [h1, ↓reduceIte, this, or_true]
+    · have h2 : ¬ (((n - 1 : Nat) : Int) < 0 ∨ ((n - 1 : Nat) : Int) > (rest.length : Int)) := by omega
+      simp only [h1, ↓reduceIte, h2]
 
-theorem compactArrayLength_err (n err nilErr : Int) (h : err ≠ nilErr) :
-    Gen.C09.compactArrayLength n err nilErr = (0, err) := by
+theorem compactArrayLength_err (n err nilErr rem off rawLen eIns : Int) (h : err ≠ nilErr) :
+    Gen.C09.compactArrayLength n err nilErr rem off rawLen eIns = (0, err, off) := by
   unfold Gen.C09.compactArrayLength
   simp only [ne_eq, h, not_false_eq_true, ↓reduceIte]
 
-/-- the two plausibility guards of `getArrayLength` after the int32 was read: the count must not exceed the
-    remaining bytes nor 2·MaxUint16 – exactly the conditions of the model's `getArrayLength`
-    (`maxU16` is math.MaxUint16 = 65535; error values are opaque) -/
+/-- the plausibility guards of `getArrayLength` after the int32 was read: the count must not exceed the
+    remaining bytes nor 2·MaxUint16, and must not be below −1 – exactly the conditions of the model's
+    `getArrayLength` (`maxU16` is math.MaxUint16 = 65535; error values are opaque) -/
 theorem arrayLengthGuard_eq (bs : Bytes) (n : Int) (rest : Bytes) (off rawLen eIns eInv nilErr : Int)
     (hg : getInt 4 bs = some (n, rest)) :
     Gen.C09.arrayLengthGuard n rest.length off rawLen 65535 eIns eInv nilErr =
@@ -126,7 +142,7 @@ theorem arrayLengthGuard_eq (bs : Bytes) (n : Int) (rest : Bytes) (off rawLen eI
   simp only [hg, e]
   by_cases h1 : n > (rest.length : Int)
   · simp only [h1, ↓reduceIte]
-  · by_cases h2 : n > 131070
+  · by_cases h2 : n > 131070 ∨ n < -1
     · simp only [h1, h2, ↓reduceIte]
     · simp only [h1, h2, ↓reduceIte]
 
